@@ -62,21 +62,22 @@ Fixpoint scan_posts (ord : bool) (ps : list post) (i : nat) (bal : value) (nul :
 Definition is_annotated (a : amount) : bool :=
   match acomm a with Some c => existsb (fun x => x =? 126) c | None => false end.
 
-(* the loop that picks top_post and stops at the first posting with a written cost *)
-Fixpoint find_top (ps : list post) (top : option post) : option post * bool :=
+(* the loop that picks top_post and stops at the first posting with a written cost; only postings in one of the
+   two commodities that remain (`keep`) are candidates - not those of a commodity that cancelled *)
+Fixpoint find_top (keep : amount -> bool) (ps : list post) (top : option post) : option post * bool :=
   match ps with
   | [] => (top, false)
   | p :: ps' =>
       let top' := match p_amt p with
-                  | Some a => if must_balance p
+                  | Some a => if must_balance p && keep a
                               then (if is_annotated a then Some p
                                     else match top with None => Some p | _ => top end)
                               else top
                   | None => top
                   end in
       match p_cost p with
-      | Some _ => if p_cost_calculated p then find_top ps' top' else (top', true)
-      | None => find_top ps' top'
+      | Some _ => if p_cost_calculated p then find_top keep ps' top' else (top', true)
+      | None => find_top keep ps' top'
       end
   end.
 
@@ -117,7 +118,7 @@ Definition infer_rate (ord : bool) (cp : comm -> Z) (ps : list post) (bal : valu
     (* components that are exactly zero (left behind by a commodity whose postings cancelled) are not counted *)
     match filter (fun a => negb (is_realzero a)) b with
     | [x0; y0] =>
-      match find_top ps None with
+      match find_top (fun a => comm_eqb (acomm a) (acomm x0) || comm_eqb (acomm a) (acomm y0)) ps None with
       | (Some tp, false) =>
           if negb (is_zero cp x0) && negb (is_zero cp y0) then
             let tc := match p_amt tp with Some a => acomm a | None => None end in
